@@ -196,9 +196,13 @@ def claimed_names(repo, cls, fn_node):
     return consts, fields
 
 
+def is_name_(n, name):
+    return isinstance(n, ast.Name) and n.id == name
+
+
 def run(repo: Repo) -> Result:
     res = Result(PID)
-    res.rules = ["C19-EXPR", "C19-CHILD", "C19-SCOPE", "C19-SUBEXPR", "C19-FILTERS", "C19-VISIT"]
+    res.rules = ["C19-EXPR", "C19-CHILD", "C19-SCOPE", "C19-SUBEXPR", "C19-FILTERS", "C19-VISIT", "C19-KEY"]
     res.explanation = "per node/expression class: fields used while rendering/evaluating ⊆ fields reported to the analyser (expressions(), children(), scopes); shape of the analyser's visit"
     res.assumptions = ["scope bookkeeping and partial de-duplication inside _visit are not decided (history level)"]
     nodes = repo.subclasses("liquid.ast.Node", strict=True)
@@ -386,6 +390,45 @@ def run(repo: Repo) -> Result:
     if "if root not in scope:" not in s or "globals.add(var)" not in s:
         res.add("C19-VISIT", av.qual, "globals", "_analyze_variables must report a path whose root is not in scope as a global", av.file, av.line)
     res.stats.update(node_classes=n_nodes, expression_classes=n_e)
+    # ---- C19-KEY: an isolated partial is re-analysed whenever its scope differs ---------------
+    # `_visit` skips a partial whose (name, key) was seen before.  For an ISOLATED partial
+    # (render) the key must therefore cover *every* name the tag puts into the partial's
+    # scope — keyword arguments and the bound variable/alias — on every path; a constant or
+    # missing key (None is also what `_visit` records for every plain visit) or a key that
+    # leaves a name out makes a later render with a smaller scope invisible.
+    from ..astutil import single_assignments, resolve_local
+
+    n_iso = 0
+    for c in nodes:
+        ps = c.methods.get("partial_scope")
+        if ps is None:
+            continue
+        assigns = single_assignments(ps.node)
+        for call in calls(ps.node):
+            if callee_name(call) != "Partial":
+                continue
+            kw = {k.arg: k.value for k in call.keywords}
+            if "ISOLATED" not in text(kw.get("scope", call.args[1] if len(call.args) > 1 else ast.Constant(None))):
+                continue
+            n_iso += 1
+            res.ob(f"partial-key:{ps.qual}")
+            key = kw.get("key")
+            key_r = resolve_local(key, assigns) if key is not None else None
+            in_scope = kw.get("in_scope", call.args[2] if len(call.args) > 2 else None)
+            ok = isinstance(key_r, ast.Call) and is_name_(key_r.func, "hash") and len(key_r.args) == 1 and isinstance(key_r.args[0], ast.Tuple)
+            if not ok:
+                res.add("C19-KEY", ps.qual, f"key={text(key_r)[:40] if key_r is not None else None}", f"{ps.qual}: an isolated partial needs `key=hash((name, *names in scope))` on every path; found `{text(key_r) if key_r is not None else None}` — None/constant keys collide with the marker `_visit` stores for every visited template, so a later render with a different scope is skipped", ps.file, call.lineno)
+                continue
+            elts = key_r.args[0].elts
+            covers_scope = isinstance(in_scope, ast.Name) and any(isinstance(e, ast.Starred) and is_name_(e.value, in_scope.id) for e in elts)
+            name_expr = kw.get("name", call.args[0] if call.args else None)
+            covers_name = name_expr is not None and any(text(e) == text(name_expr) for e in elts)
+            if not covers_scope:
+                res.add("C19-KEY", ps.qual, "key-misses-scope", f"{ps.qual}: the partial key `{text(key_r)[:60]}` does not cover every name passed as in_scope (`{text(in_scope) if in_scope is not None else None}`): two renders that differ only in a bound variable/alias share a key and the second is never analysed", ps.file, call.lineno)
+            if not covers_name:
+                res.add("C19-KEY", ps.qual, "key-misses-name", f"{ps.qual}: the partial key does not include the partial's name", ps.file, call.lineno)
+    if n_iso < 1:
+        raise AnchorMissing("no node declares an ISOLATED partial scope any more; re-derive C19-KEY")
     return res
 
 
@@ -397,6 +440,8 @@ def selftest(repo: Repo):
 
     T = "liquid/builtin/tags/"
     return [
+        v("render-key-none-without-args", T + "render_tag.py", "        partial_key = hash((partial_name, *scope))\n", "        partial_key = hash((partial_name, *scope)) if self.args else None\n", "C19-KEY"),
+        v("render-key-omits-bound-name", T + "render_tag.py", "        partial_key = hash((partial_name, *scope))\n", "        partial_key = hash((partial_name, *[arg.name for arg in self.args]))\n", "C19-KEY"),
         v("include-drops-var", T + "include_tag.py", "        yield self.name\n        if self.var:\n            yield self.var\n", "        yield self.name\n", "C19-EXPR"),
         v("cycle-drops-group", T + "cycle_tag.py", "        if self.group:\n            yield self.group\n        yield from self.args", "        yield from self.args", "C19-EXPR"),
         v("for-drops-default-child", T + "for_tag.py", "        yield self.block\n        if self.default:\n            yield self.default\n\n    def expressions", "        yield self.block\n\n    def expressions", "C19-CHILD"),
